@@ -103,6 +103,13 @@ def setThread (s : St) (t : Nat) (th : Thread) : St := { s with threads := s.thr
 
 def upd {α : Type} (f : Nat → α) (k : Nat) (v : α) : Nat → α := fun j => if j = k then v else f j
 
+/-- what a reader caches: `cacheHave(has)` for Has, `cacheHave(false)` / `cacheSize(len)` for Get and GetSize -/
+def readEntry (sz : Nat → Nat) (kind : RKind) (k : Nat) (p : Bool) : Entry :=
+  match kind, p with
+  | .has, b => .have b
+  | _, false => .have false
+  | _, true => .size (sz k)
+
 def stepThread (sz : Nat → Nat) (s : St) (t : Nat) (th : Thread) : Option St :=
   let go (pc : PC) (s' : St) (j : Bool) : Option St := some (setThread s' t { th with pc := pc, just := th.just || j })
   match th.prog, th.pc with
@@ -113,12 +120,7 @@ def stepThread (sz : Nat → Nat) (s : St) (t : Nat) (th : Thread) : Option St :
     | none => go .rLock s false
   | .read _ k, .rLock => if (s.writer k).isNone then go .rRead { s with rholders := upd s.rholders k (t :: s.rholders k) } false else none
   | .read _ k, .rRead => go (.rCache (present s k)) s true
-  | .read kind k, .rCache p =>
-    let e : Entry := match kind, p with
-      | .has, b => .have b
-      | _, false => .have false
-      | _, true => .size (sz k)
-    go (.rUnlock p) { s with cache := upd s.cache k (some e) } false
+  | .read kind k, .rCache p => go (.rUnlock p) { s with cache := upd s.cache k (some (readEntry sz kind k p)) } false
   | .read _ k, .rUnlock p => go (.done p) { s with rholders := upd s.rholders k ((s.rholders k).filter (· != t)) } false
   -- Put / DeleteBlock
   | .put k, .qQuery =>
@@ -196,5 +198,12 @@ def accessOf (prog : Prog) : PC → Option String
     | _ => some "cache.AddSize"
   | .mCache _ _ => some "cache.AddSize"
   | .done _ => none
+
+/-- program counters of the tqcache methods in SOURCE order (deferred unlock where the `defer` stands) -/
+def pcsRead : List PC := [.qQuery, .rLock, .rUnlock true, .rRead, .rCache false, .rCache true]
+def pcsWrite : List PC := [.qQuery, .wLock, .wUnlock, .wWrite, .wCache]
+def pcsPutMany : List PC := [.mQuery [] [], .mLock [] [], .mUnlock [], .mWrite [], .mCache [] []]
+
+def accesses (prog : Prog) (pcs : List PC) : List String := (pcs.filterMap (accessOf prog)).eraseDups
 
 end C02.TQC
